@@ -61,6 +61,9 @@ def run_case(case, step_hook=None):
     DESTINATIONS=[dest_string(d) for d in dests], RELAY_METHOD='consistent-hashing', REPLICATION_FACTOR=1,
     DIVERSE_REPLICAS=False, ROUTER_HASH_TYPE='carbon_ch', TAG_RELAY_NORMALIZED=False, LOG_LISTENER_CONN_SUCCESS=False,
     program='carbon-relay', instance=None)
+  # a TCP-like transport: once more than this many bytes are pending it pauses the client protocol from inside
+  # write(); the peer reading ('resume' events, quiescence) lets it go on
+  sim.pause_threshold = case.get('pause_after')
   t = Trace()
   t.sim = sim
   t.client = client
@@ -74,6 +77,7 @@ def run_case(case, step_hook=None):
   t.written = {d: [] for d in dests}      # decoded ids in write order
   t.transports = {d: [] for d in dests}
   t.stop_snapshot = None
+  t.stop_buffer = []
   t.closing_seen = {}
   t.step_checks = []
   t.paused_history = []
@@ -226,7 +230,8 @@ def run_case(case, step_hook=None):
             c.protocol.pauseProducing()
             ok = True
           elif kind == 'resume' and c.state == 'connected' and c.protocol.paused:
-            c.protocol.resumeProducing()
+            if not c.transport.drain():
+              c.protocol.resumeProducing()
             ok = True
         if not ok:
           t.skipped += 1
@@ -237,6 +242,7 @@ def run_case(case, step_hook=None):
       elif kind == 'stop':
         if t.stop_snapshot is None:
           t.stop_snapshot = {d: [dp[1] for m, dp in f.queue if dp[0] == TS] for d, f in t.factories.items()}
+          t.stop_buffer = [dp[1] for m, dp in fake.queue if dp[0] == TS]
           t.events.append(('stop',))
           root.stopService()
       elif kind == 'recv_connect':
@@ -272,7 +278,8 @@ def run_case(case, step_hook=None):
             c.sim_connected()
             progressed = True
           if c.state == 'connected' and c.protocol.paused:
-            c.protocol.resumeProducing()
+            if not c.transport.drain():
+              c.protocol.resumeProducing()
             progressed = True
         n = sim.settle(horizon=30.0)
         harvest()
@@ -286,7 +293,8 @@ def run_case(case, step_hook=None):
         for d, f in t.factories.items():
           c = getattr(f, 'connector', None)
           if c is not None and c.state == 'connected' and c.protocol.paused:
-            c.protocol.resumeProducing()
+            if not c.transport.drain():
+              c.protocol.resumeProducing()
         n = sim.settle(horizon=0.5)
         harvest()
         auto_close()
